@@ -211,8 +211,24 @@ func (p *Prog) doorObligations(tags []string) []*Obligation {
 				}
 				sel, _ := c.Fun.(*ast.SelectorExpr)
 				id, ok := ast.Unparen(sel.X).(*ast.Ident)
-				if !ok || !useNumber[info.Uses[id]] {
-					decBad = append(decBad, where+": UseNumber is not called on this decoder in the same function")
+				if ok && useNumber[info.Uses[id]] {
+					continue
+				}
+				// the decoder may come from a helper of the repository that builds it and calls UseNumber before returning it
+				fromHelper := false
+				if ok {
+					if u := locals[info.Uses[id]]; u != nil && len(u.defs) == 1 && u.defs[0] != nil {
+						if dc, isCall := ast.Unparen(u.defs[0]).(*ast.CallExpr); isCall {
+							if hf := calleeOf(info, dc); hf != nil {
+								if h, isRepo := p.ByObj[hf]; isRepo && p.makesExactDecoder(h) {
+									fromHelper = true
+								}
+							}
+						}
+					}
+				}
+				if !fromHelper {
+					decBad = append(decBad, where+": UseNumber is not called on this decoder (neither in this function nor in the helper that builds it)")
 				}
 			}
 		}
@@ -234,4 +250,33 @@ func isDefaultLdOptions(info *types.Info, c *ast.CallExpr) bool {
 	}
 	tv, ok := info.Types[c.Args[0]]
 	return ok && tv.Value != nil && tv.Value.Kind() == constant.String && constant.StringVal(tv.Value) == ""
+}
+
+// makesExactDecoder: the function builds a json.Decoder, calls UseNumber on it and returns it (and decodes nothing itself)
+func (p *Prog) makesExactDecoder(fi *FuncInfo) bool {
+	if fi.Body() == nil {
+		return false
+	}
+	info := fi.Pkg.TypesInfo
+	made, exact, other := false, false, false
+	ast.Inspect(fi.Body(), func(nd ast.Node) bool {
+		c, ok := nd.(*ast.CallExpr)
+		if !ok {
+			return true
+		}
+		fn := calleeOf(info, c)
+		if fn == nil || fn.Pkg() == nil || fn.Pkg().Path() != "encoding/json" {
+			return true
+		}
+		switch fn.Name() {
+		case "NewDecoder":
+			made = true
+		case "UseNumber":
+			exact = true
+		case "Unmarshal", "Decode", "Token":
+			other = true
+		}
+		return true
+	})
+	return made && exact && !other
 }
